@@ -162,6 +162,8 @@ fn emit(w: &mut CaseWriter, sut: &mut Sut, d: &Db, c: &Chain, stream: &str) {
         _ => false,
     };
     w.count(if ok { "oracle:agree" } else { "oracle:differ" }, 1);
+    w.count(&format!("class:{}", rough_class(d, c)), 1);
+    w.count(if modelled(d, c) { "model:covered" } else { "model:not_covered" }, 1);
 }
 
 fn gen(a: &Args) {
